@@ -863,6 +863,18 @@ staticassert(struct scope *s)
 	return true;
 }
 
+static unsigned long long
+bitfieldwidth(struct scope *s)
+{
+	unsigned long long width;
+
+	width = intconstexpr(s, false);
+	/* addmember() uses -1 for members that are not bit-fields */
+	if (width == -1)
+		error(&tok.loc, "bit-field exceeds width of underlying type");
+	return width;
+}
+
 static void
 structdecl(struct scope *s, struct structbuilder *b)
 {
@@ -886,11 +898,11 @@ structdecl(struct scope *s, struct structbuilder *b)
 	}
 	for (;;) {
 		if (consume(TCOLON)) {
-			width = intconstexpr(s, false);
+			width = bitfieldwidth(s);
 			addmember(b, base, NULL, 0, width);
 		} else {
 			mt = declarator(s, base, &name, NULL, false);
-			width = consume(TCOLON) ? intconstexpr(s, false) : -1;
+			width = consume(TCOLON) ? bitfieldwidth(s) : -1;
 			addmember(b, mt, name, align, width);
 		}
 		if (tok.kind == TSEMICOLON)
